@@ -209,6 +209,11 @@ func (env *evalEnv) eval(x ast.Expr) SV {
 func (env *evalEnv) ident(v *ast.Ident) SV {
 	e := env.e
 	tb := e.tb
+	if strings.HasPrefix(v.Name, "dollar__") {
+		if sv, ok := env.vars[strings.TrimPrefix(v.Name, "dollar__")]; ok {
+			return sv
+		}
+	}
 	if sv, ok := env.bound[v.Name]; ok {
 		return sv
 	}
